@@ -746,7 +746,42 @@ func TestPropContains(t *testing.T) {
 	stats.Assume("cases are placed exactly at (v + off) * 2^k with k in [-40, 40] and off in {0, +-2^20, +-2^30, 2^30+0.5, -(2^30+2^10), 3*2^28} per axis; the oracle decides on the unplaced lattice")
 	stats.Assume("the value handed to orb is laid out shared (all rings consecutive windows of one buffer, len < cap) / spare (own arrays with sentinel slots) / plain in 40/40/20 % of the cases, outer slices with spare sentinel entries; the containment tests must leave all of that memory bit-identical")
 	stats.Assume("rings have >= 3 listed vertices (repeats allowed), polygons have an outer ring; Polygon{} and rings without vertices are outside the quantifier")
-	stats.Check(t, 200000, 4000000, func(rt *rapid.T) {
+	stats.Check(t, 150000, 4000000, func(rt *rapid.T) {
+		c, _ := drawCase(rt)
+		stats.Try(rt, "TestPropContains", c, func() error { return checkCase(c) })
+	})
+}
+
+// TestPropConcurrent evaluates 2..8 independent cases at the same time on separate goroutines. The
+// containment tests depend on their arguments only and checkCase is a pure function of the case, so
+// every case must still agree with the oracle: a disagreement means concurrent callers share state
+// inside the library (a scratch ring, a cached bound, a package-level closing-edge buffer).
+func TestPropConcurrent(t *testing.T) {
+	stats.Check(t, 2000, 60000, func(rt *rapid.T) {
+		n := rapid.IntRange(2, 8).Draw(rt, "goroutines")
+		cs := make([]Case, n)
+		nt := 0
+		for i := range cs {
+			var isNT bool
+			cs[i], isNT = drawCase(rt)
+			if isNT {
+				nt++
+			}
+		}
+		stats.Class(fmt.Sprintf("concurrent:%d goroutines", n))
+		if nt >= 2 {
+			stats.NonTrivial("conc:" + gen.JSON(cs))
+			if stats.WantSample("concurrent") {
+				stats.Sample("concurrent", cs)
+			}
+		}
+		stats.TryParallel(rt, "TestPropConcurrent", cs, n, 6, func(i int) error { return checkCase(cs[i]) })
+	})
+}
+
+// drawCase draws one case of the random property (and reports whether it is non-trivial).
+func drawCase(rt *rapid.T) (Case, bool) {
+	{
 		kind := rapid.SampledFrom([]string{"ring", "ring", "ring", "polygon", "polygon", "multipolygon"}).Draw(rt, "kind")
 		f := genFrame(rt)
 		var members [][]qring
@@ -815,12 +850,11 @@ func TestPropContains(t *testing.T) {
 		} else if c.K >= 20 {
 			stats.Class("placement:k >= 20")
 		}
-		classify(c, members, f, qkinds)
-		stats.Try(rt, "TestPropContains", c, func() error { return checkCase(c) })
-	})
+		return c, classify(c, members, f, qkinds)
+	}
 }
 
-func classify(c Case, members [][]qring, f frame, qkinds []string) {
+func classify(c Case, members [][]qring, f frame, qkinds []string) bool {
 	counts := map[string]int64{}
 	defer func() {
 		keys := make([]string, 0, len(counts))
@@ -863,7 +897,7 @@ func classify(c Case, members [][]qring, f frame, qkinds []string) {
 	for _, q := range qs {
 		iq, err := toI(q)
 		if err != nil {
-			return
+			return false
 		}
 		var imp [][][]ipt
 		for _, p := range mp {
@@ -871,7 +905,7 @@ func classify(c Case, members [][]qring, f frame, qkinds []string) {
 			for _, r := range p {
 				ir, err := toIs(r)
 				if err != nil {
-					return
+					return false
 				}
 				ip = append(ip, ir)
 				cls := exactClass(ir, iq)
@@ -935,6 +969,7 @@ func classify(c Case, members [][]qring, f frame, qkinds []string) {
 			stats.Sample(c.Kind, c)
 		}
 	}
+	return nontrivial
 }
 
 // ---------------------------------------------------------------- enumerations
@@ -1261,6 +1296,18 @@ func TestReplay(t *testing.T) {
 	_, raw, ok := stats.Replaying()
 	if !ok {
 		t.Skip("no replay file")
+	}
+	if name, _, _ := stats.Replaying(); name == "TestPropConcurrent" {
+		var cs []Case
+		if err := json.Unmarshal(raw, &cs); err != nil {
+			t.Fatal(err)
+		}
+		for k := 0; k < 20; k++ {
+			if err := stats.ParallelErr(len(cs), 100, func(i int) error { return checkCase(cs[i]) }); err != nil {
+				t.Fatalf("replayed concurrent group still fails: %v", err)
+			}
+		}
+		return
 	}
 	var c Case
 	if err := json.Unmarshal(raw, &c); err != nil {
